@@ -940,16 +940,17 @@ class CompressedBlockColumn(Column):
             i = self._find_block(docnum)
             if i is None:
                 return emptybytes
-            return self._get_block(i)[docnum]
+            # (a document inside the block's range may have no value)
+            return self._get_block(i).get(docnum, emptybytes)
 
         def __iter__(self):
             last = -1
             for i, block in enumerate(self._blocks):
                 startdoc = block[0]
                 enddoc = block[1]
-                if startdoc > (last + 1):
-                    for _ in xrange(startdoc - last):
-                        yield emptybytes
+                # The documents between the previous block and this one
+                for _ in xrange(startdoc - last - 1):
+                    yield emptybytes
                 values = self._get_block(i)
                 for docnum in xrange(startdoc, enddoc + 1):
                     if docnum in values:
@@ -957,9 +958,9 @@ class CompressedBlockColumn(Column):
                     else:
                         yield emptybytes
                 last = enddoc
-            if enddoc < self._doccount - 1:
-                for _ in xrange(self._doccount - enddoc):
-                    yield emptybytes
+            # The documents after the last block
+            for _ in xrange(self._doccount - last - 1):
+                yield emptybytes
 
 
 class StructColumn(FixedBytesColumn):
